@@ -158,7 +158,8 @@ type Action struct {
 	Render  string   `json:"render,omitempty"`  // text rendered through Context.Render; $T = type name, $G = generator name, $P = package name
 	Imports []string `json:"imports,omitempty"` // import paths referenced through snippet.PkgExpose (rendered as `var _ <name>.X`)
 	Ret     string   `json:"ret,omitempty"`     // "", skip, ignore, wrapskip, wrapignore, error, panic, goexit, kill, exit
-	Defers  []Action `json:"defers,omitempty"`  // callbacks registered with Context.Defer (their Ret: "", error, panic, kill)
+	Defers  []Action `json:"defers,omitempty"`  // callbacks registered with Context.Defer (their Ret: "", error, panic, kill); a callback's own Defers are registered from INSIDE the callback
+	Label   string   `json:"label,omitempty"`   // copied into the log event of a Defer callback
 	// Parts: texts handed to the writer by the route Route: 0 one Block of the concatenation, 1 one Render
 	// call per part, 2 ONE RenderT call with every part as a template argument, 3 ONE Render call of a
 	// Snippets list, 4 ONE Render call of Sprintf("%v%v...", parts as snippets)
@@ -192,6 +193,7 @@ type Event struct {
 	Type       string `json:"type,omitempty"`
 	N          int    `json:"n"`    // call index within this generator and run
 	Inst       int    `json:"inst"` // generator instance id
+	Label      string `json:"label,omitempty"`
 	FileExists bool   `json:"file_exists"`
 	FileHash   string `json:"file_hash,omitempty"`
 }
@@ -292,7 +294,7 @@ func (in *inst) perform(c gengo.Context, gen string, a Action, typ string) error
 		c.Defer(func(c gengo.Context) error {
 			mu.Lock()
 			ex, h := fileState(c, gen)
-			log = append(log, Event{Kind: "defer", Gen: gen, Pkg: c.Package("").Pkg().Path(), Type: typ, Inst: in.id, FileExists: ex, FileHash: h})
+			log = append(log, Event{Kind: "defer", Gen: gen, Pkg: c.Package("").Pkg().Path(), Type: typ, Inst: in.id, FileExists: ex, FileHash: h, Label: d.Label})
 			mu.Unlock()
 			return in.perform(c, gen, d, typ)
 		})
